@@ -4,12 +4,14 @@ package main
 import (
 	"verif/dsim/harness"
 	"verif/dsim/props/c15"
+	"verif/dsim/props/c16"
 	"verif/dsim/props/c17"
 )
 
 func main() {
 	reg := map[string]harness.Harness{
 		"C15": c15.H{},
+		"C16": c16.H{},
 		"C17": c17.H{},
 	}
 	harness.Main(reg)
